@@ -1,4 +1,5 @@
 import LettreVerif.Proofs.PoolLts
+import LettreVerif.Proofs.PoolPerMsg
 /-!
 # C07 — Concurrent sends through one pooled transport stay isolated and exactly-once
 
@@ -27,6 +28,38 @@ theorem commits_equal_successes (isAsync : Bool) (maxSize minIdle sends nSenders
     (hr : run (init isAsync maxSize minIdle sends nSenders plans) es = some s) :
     totalCommits s = totalOk s :=
   (valid_count_run es _ s (valid_init ..) (count_init ..) hr).2
+
+/-- **Exactly once, message by message.** Under every interleaving of check-outs, returns, maintenance passes, waits and
+    shutdowns, for any number of senders, any pool configuration and any peer behaviour: for every sender `i` and every
+    message index `m`, the commits the peers have recorded for `(i, m)` — over all connections ever opened — number one if
+    the `m`-th send of sender `i` reported success, and none otherwise (it failed, was refused, or has not been sent).
+    No message is delivered twice, none is reported delivered without having been, and none is delivered under another
+    send's identity. -/
+theorem each_message_exactly_once (isAsync : Bool) (maxSize minIdle sends nSenders : Nat)
+    (plans : List Plan) (es : List Ev) (s : St)
+    (hr : run (init isAsync maxSize minIdle sends nSenders plans) es = some s) (i m : Nat) :
+    totalOf i m s = okAt i m s :=
+  (valid_books_run es _ s (valid_init ..) (books_init ..) hr).2.2 i m
+
+/-- …and the results a sender has are those of its messages `0 .. next-1`, plus the one of the send whose connection it
+    still holds: the `m`-th result is the result of message `m`. -/
+theorem results_are_indexed_by_message (isAsync : Bool) (maxSize minIdle sends nSenders : Nat)
+    (plans : List Plan) (es : List Ev) (s : St)
+    (hr : run (init isAsync maxSize minIdle sends nSenders plans) es = some s) (i : Nat) (t : Sender)
+    (ht : s.senders[i]? = some t) :
+    t.results.length = t.next + (if t.holding.isSome then 1 else 0) :=
+  (valid_books_run es _ s (valid_init ..) (books_init ..) hr).2.1 i t ht
+
+/-- non-vacuity: the peer drops the first connection after its second message; sender 1's check-out finds it dead (the
+    probe fails, nothing is sent on it), its next check-out opens a new connection. Both messages of sender 0 and the
+    first of sender 1 are committed once, the second of sender 1 (not sent yet) not at all. -/
+example :
+    let s := (run (init false 1 0 2 2 [{ dropAfter := some 2 }, {}])
+      [.maintScan, .connectionLock 0, .recycleLock 0, .connectionLock 0, .recycleLock 0,
+       .connectionLock 1, .connectionLock 1, .recycleLock 1]).getD (init false 1 0 0 0 [])
+    (totalOf 0 0 s, totalOf 0 1 s, totalOf 1 0 s, totalOf 1 1 s) = (1, 1, 1, 0) ∧
+      (okAt 0 0 s, okAt 0 1 s, okAt 1 0 s, okAt 1 1 s) = (1, 1, 1, 0) ∧ s.conns.length = 2 := by
+  decide
 
 /-- **One user at a time.** Under every interleaving, every connection is in at most one place:
     parked in the idle set, held by exactly one sender, waiting in exactly one (tokio) recycle
@@ -72,6 +105,45 @@ example :
     (transact k 0 0).2 = .trans ∧ (transact k 0 0).1.closed = true ∧
       (transact k 0 0).1.hist = [.eof, .quit, .dataTemp, .rcpt, .mail 0, .ehlo] := by
   decide
+
+/-- **A transaction is whole and carries one sender's identity.** Whatever the peer does, one transaction of sender `i`
+    with message `m` adds to the connection's history, in one piece: nothing but the close (the peer was gone); or
+    `MAIL(i)` followed by a refused recipient, or by `RCPT` and a refused `DATA`, each followed by nothing but QUIT / the
+    close; or `MAIL(i) RCPT DATA commit(i, m)`, possibly followed by the peer's own close. No event of another sender
+    and no second commit can appear inside it. -/
+theorem transaction_is_whole (k : Conn) (i m : Nat) :
+    ∃ tail body : List SEv, (transact k i m).1.hist = tail ++ body ++ k.hist ∧
+      (body = [] ∨ body = [.rcptRej, .mail i] ∨ body = [.rcptTemp, .mail i] ∨ body = [.dataTemp, .rcpt, .mail i] ∨
+        body = [.commit i m, .data, .rcpt, .mail i]) ∧
+      (∀ e ∈ tail, e = .quit ∨ e = .eof ∨ e = .kill) := by
+  have hab : ∀ k' : Conn, ∃ tail : List SEv, (abortConn k').hist = tail ++ k'.hist ∧ ∀ e ∈ tail, e = .quit ∨ e = .eof ∨ e = .kill := by
+    intro k'
+    unfold abortConn
+    by_cases h1 : k'.closed
+    · exact ⟨[], by simp [h1], by simp⟩
+    · by_cases h2 : k'.broken <;> by_cases h3 : k'.peerAlive
+      · exact ⟨[.eof], by simp [h1, h2, h3, say], by simp⟩
+      · exact ⟨[], by simp [h1, h2, h3], by simp⟩
+      · exact ⟨[.eof, .quit], by simp [h1, h2, h3, say], by simp⟩
+      · exact ⟨[], by simp [h1, h2, h3], by simp⟩
+  unfold transact
+  by_cases h3 : k.peerAlive
+  · simp only [h3, Bool.not_true, Bool.false_eq_true, if_false]
+    split
+    · obtain ⟨t, ht, hq⟩ := hab (say { say k (.mail i) with txns := k.txns + 1 } .rcptRej)
+      exact ⟨t, [.rcptRej, .mail i], by rw [ht]; simp [say], by simp, hq⟩
+    · split
+      · obtain ⟨t, ht, hq⟩ := hab (say { say k (.mail i) with txns := k.txns + 1 } .rcptTemp)
+        exact ⟨t, [.rcptTemp, .mail i], by rw [ht]; simp [say], by simp, hq⟩
+      · split
+        · obtain ⟨t, ht, hq⟩ := hab (say (say { say k (.mail i) with txns := k.txns + 1 } .rcpt) .dataTemp)
+          exact ⟨t, [.dataTemp, .rcpt, .mail i], by rw [ht]; simp [say], by simp, hq⟩
+        · split
+          · exact ⟨[.kill], [.commit i m, .data, .rcpt, .mail i], by simp [say], by simp, by simp⟩
+          · exact ⟨[], [.commit i m, .data, .rcpt, .mail i], by simp [say], by simp, by simp⟩
+  · simp only [h3]
+    obtain ⟨t, ht, hq⟩ := hab k
+    exact ⟨t, [], by simpa using ht, by simp, hq⟩
 
 /-- … and a broken connection is not handed back: after a send on a connection that came out broken, the sender holds
     nothing (blocking pool) and the recycle task it spawns carries no connection (tokio pool). -/
